@@ -37,7 +37,7 @@ PROPS = {
     "C01": {"props_file": "Props/C01.v", "families": ["hist"], "design_ref": "DESIGN.md §8 C01",
             "level_text": "Theorem c01_history_refines: for every element type, configuration and EVERY finite history of the 24 list operations (unbounded length, by induction) the raw-slot model of stack.go (whose guards are regenerated from /repo by the translator) never panics, stays well-formed and returns/ends exactly like the ordered-list specification. The model is tied to the code by the hist family (exhaustive short + random long histories, full re-observation after every mutator) evaluated in Coq against model and specification.",
             "technique": "Coq refinement proof (induction over histories) over a partly regenerated model + differential correspondence check"},
-    "C03": {"props_file": "Props/C03.v", "families": ["hist", "transfer", "policy", "sched"], "design_ref": "DESIGN.md §8 C03",
+    "C03": {"props_file": "Props/C03.v", "families": ["hist", "transfer", "policy", "sched", "marshaljunk"], "design_ref": "DESIGN.md §8 C03",
             "level_text": "Theorems c03_*: every state reachable from a constructor with capacity k by any history holds <= k elements and answers Len/Cap/Avail/IsFull with n, k, k-n, n==k; without capacity -1/-1/false; Push keeps the earliest offered values; Insert on a full stack is a no-op. Proved from the refinement theorem plus a capacity invariant of the specification.",
             "technique": "Coq invariant proof over all histories (corollary of the refinement theorem) + differential correspondence check"},
     "C08": {"props_file": "Props/C08.v", "families": ["indexsweep", "awkward", "hist", "sched"], "design_ref": "DESIGN.md §8 C08",
